@@ -17,6 +17,7 @@ type cval struct {
 	T    types.Type // nil for untyped constants
 	k    *big.Int   // untyped integer constant
 	addr *Term      // address of the storage this value was read from (lvalues)
+	fk    *float64 // untyped float constant
 	isNil bool
 	ty   types.Type // value denotes a type (typeis argument / conversion head)
 }
@@ -98,6 +99,24 @@ func (env *cenv) constOf(k *big.Int, T types.Type) cval {
 
 // unify converts untyped constants to the other operand's type.
 func (env *cenv) unify(a, b cval) (cval, cval) {
+	// untyped numeric constants against float operands
+	if b.T != nil && isFloat(b.T) {
+		if a.fk != nil {
+			a = env.e.fpConst(*a.fk, b.T)
+		} else if a.k != nil {
+			a = env.e.fpConstFromInt(a.k, b.T)
+		}
+	}
+	if a.T != nil && isFloat(a.T) {
+		if b.fk != nil {
+			b = env.e.fpConst(*b.fk, a.T)
+		} else if b.k != nil {
+			b = env.e.fpConstFromInt(b.k, a.T)
+		}
+	}
+	if a.fk != nil && b.fk != nil {
+		return env.e.fpConst(*a.fk, types.Typ[types.Float64]), env.e.fpConst(*b.fk, types.Typ[types.Float64])
+	}
 	if a.k != nil && b.k == nil && b.T != nil && isInteger(b.T) {
 		a = env.constOf(a.k, b.T)
 	}
@@ -207,6 +226,9 @@ func (env *cenv) eval(x Expr) cval {
 		return cval{k: t.V}
 	case EBool:
 		return cval{v: Val{c.BoolC(t.V)}, T: tBool}
+	case EFloat:
+		f := t.V
+		return cval{fk: &f}
 	case EStr:
 		return cval{v: e.strConst(t.V), T: types.Typ[types.String]}
 	case EType:
@@ -256,6 +278,13 @@ func (env *cenv) eval(x Expr) cval {
 			v := env.eval(t.X)
 			if v.k != nil {
 				return cval{k: new(big.Int).Neg(v.k)}
+			}
+			if v.fk != nil {
+				f := -*v.fk
+				return cval{fk: &f}
+			}
+			if isFloat(v.T) {
+				return cval{v: Val{e.fpNeg(v.v[0], v.T)}, T: v.T}
 			}
 			return cval{v: Val{c.Neg(v.v[0])}, T: v.T}
 		case "^":
@@ -643,6 +672,12 @@ func (env *cenv) evalBinary(t EBinary) cval {
 
 func (env *cenv) convertTo(v cval, T types.Type) cval {
 	e := env.e
+	if v.fk != nil {
+		if isFloat(T) {
+			return e.fpConst(*v.fk, T)
+		}
+		env.errf("cannot convert float constant to %v", T)
+	}
 	if v.k != nil {
 		if isInteger(T) {
 			return env.constOf(v.k, T)
@@ -773,11 +808,11 @@ func (env *cenv) evalCall(t ECall) cval {
 		return cval{v: Val{v.v[1]}, T: types.Typ[types.Uintptr]}
 	case "f32bits":
 		v := env.eval(t.Args[0])
-		return cval{v: v.v, T: types.Typ[types.Uint32]}
+		return cval{v: Val{e.fpToBits(v.v[0])}, T: types.Typ[types.Uint32]}
 	case "f32frombits":
 		v := env.eval(t.Args[0])
 		v = env.convertTo(v, types.Typ[types.Uint32])
-		return cval{v: v.v, T: types.Typ[types.Float32]}
+		return cval{v: Val{e.fpFromBits(v.v[0])}, T: types.Typ[types.Float32]}
 	case "isNaN":
 		v := env.eval(t.Args[0])
 		return cval{v: Val{e.fpIsNaN(v.v[0], v.T)}, T: tBool}
